@@ -1227,3 +1227,21 @@ fn test_assign_from_slice() {
     check(Minus, 1, Minus, 1);
     check(NoSign, 1, NoSign, 0);
 }
+
+#[cfg(num_bigint_verif)]
+impl BigInt {
+    /// The stored sign and the raw digit vector of the magnitude.
+    pub fn verif_raw(&self) -> (Sign, &[crate::big_digit::BigDigit]) {
+        (self.sign, self.data.verif_raw())
+    }
+
+    /// Reserve room for `extra` more digits of the magnitude.
+    pub fn verif_reserve(&mut self, extra: usize) {
+        self.data.verif_reserve(extra);
+    }
+
+    /// Shrink the magnitude's capacity to its length.
+    pub fn verif_shrink(&mut self) {
+        self.data.verif_shrink();
+    }
+}
